@@ -58,6 +58,11 @@ class C02Stream(TaskMsgStream):
 
 STREAMS = [C02Stream()]
 
+# scheduler-level stream (pool automaton Model/Pool.v + real scheduler runs with retries, failures,
+# submit failures, duplicated / re-ordered messages); added by the framework owner
+from vp.sched.stream import SchedStream  # noqa: E402
+STREAMS.append(SchedStream('C02', name="sched-retry", feat={'retries': True, 'abs': True}, n_quick=24, n_thorough=500))
+
 META = {
     "level_text": (
         "Coq theorems over Model/TaskMsg.v: for a task with N execution and M submission retry delays and any op sequence "
